@@ -57,6 +57,8 @@ def run(ctx, rep):
     common.check_duplicate_operands(ctx, rep, "R8.8", ["cobyqa.problem:Problem.__init__", "cobyqa.problem:BoundConstraints.__init__", "cobyqa.problem:LinearConstraints.__init__", "cobyqa.main:minimize"])
     from . import c10
     c10.run(ctx, Renamed(rep, to="R8.8"), r1="R8.8", only_transform=True)
+    rep.rule("R8.11", "every attribute read on self resolves to a method, property or assigned field of its class (no AttributeError in rarely taken branches)")
+    r811(ctx, rep)
     rep.rule("R8.10", "the barrier constant can be squared without overflow (it replaces NaN/inf values that the models then square): evaluated statically with the IEEE double parameters")
     r810(ctx, rep)
     rep.rule("R8.9", "reduced-space points only meet reduced-space bounds/matrices (a dimension mismatch raises inside numpy and escapes) (see C02 R2.5)")
@@ -421,3 +423,45 @@ def r810(ctx, rep):
         rep.finding("R8.10", "settings", norm(v)[:100], getattr(v, "lineno", 0),
                     f"the barrier value {val!r} cannot be squared without overflow (or is not a large finite number): a NaN/inf returned by the user is replaced by it, the models square it, "
                     "and the run continues with inf/NaN (LinAlgError or NaN points handed to the user)", file="cobyqa/settings.py")
+
+
+def r811(ctx, rep):
+    """every attribute read on `self` names something the class defines: a
+    method, a property, a class attribute or a field that some method of the
+    class (or a base class of the package) assigns.  A read of an undefined
+    attribute raises AttributeError in the middle of a run."""
+    n = 0
+    for c in ctx.repo.classes.values():
+        defined = set(c.methods) | set(c.getters) | set(c.setters) | set(c.class_attrs)
+        # fields assigned anywhere in the class
+        for g in list(c.methods.values()) + list(c.getters.values()) + list(c.setters.values()):
+            sn = g.self_name
+            if not sn:
+                continue
+            for node in ast.walk(g.node):
+                if isinstance(node, ast.Attribute) and isinstance(node.ctx, (ast.Store, ast.Del)) and isinstance(node.value, ast.Name) and node.value.id == sn:
+                    defined.add(node.attr)
+        bases = [b.split(".")[-1] for b in c.bases]
+        external_base = any(b not in ctx.repo.classes and b not in ("object",) for b in bases)
+        for b in bases:
+            bc = ctx.repo.classes.get(b)
+            if bc is not None:
+                defined |= set(bc.methods) | set(bc.getters) | set(bc.class_attrs)
+        if external_base:
+            continue        # attributes may come from a library base class (Enum, Exception, ...)
+        for g in list(c.methods.values()) + list(c.getters.values()) + list(c.setters.values()):
+            sn = g.self_name
+            if not sn:
+                continue
+            for node in ast.walk(g.node):
+                if isinstance(node, ast.Attribute) and isinstance(node.ctx, ast.Load) and isinstance(node.value, ast.Name) and node.value.id == sn:
+                    if node.attr.startswith("__") and node.attr.endswith("__"):
+                        continue
+                    n += 1
+                    if node.attr not in defined:
+                        rep.bad("R8.11", f"{g.local}:{node.lineno} self.{node.attr}")
+                        rep.finding("R8.11", g, f"{sn}.{node.attr}", node.lineno,
+                                    f"`{sn}.{node.attr}` is read but class {c.name} defines no such method, property or field: AttributeError escapes when this statement runs")
+    if n < 300:
+        raise AnalysisError(f"only {n} attribute reads on self found (floor 300)")
+    rep.ok("R8.11", f"{n} attribute reads on self resolve to a method, property or assigned field of their class")
